@@ -236,8 +236,8 @@ type verifC09Case struct {
 	Spill   int         `json:"spill_batch"`
 	WriteTo bool        `json:"write_to"`
 	Dest    []int       `json:"dest"`
-	// OpenFault: before the combiner is read, a spill file that cannot be opened (dangling symbolic
-	// link) is planted in its spill directory: reading must fail or succeed, and either way no spill
+	// OpenFault: before the combiner is read, a spill file that cannot be opened (a symbolic link to
+	// itself) is planted in its spill directory: reading must fail or succeed, and either way no spill
 	// directory may remain.
 	OpenFault bool `json:"open_fault,omitempty"`
 	// Discard: the combiner is discarded instead of being read.
@@ -272,7 +272,7 @@ func verifC09Combiner(u int) interface{} {
 	panic("no combiner")
 }
 
-var verifC09Faulted int
+var verifC09Faulted, verifC09FaultErrs int
 
 func verifC09SpillDirs() []string {
 	m, _ := filepath.Glob(filepath.Join(os.TempDir(), "spiller-*"))
@@ -340,7 +340,7 @@ func verifC09Run(c verifC09Case) (spills int64, err error) {
 					where = sub[0]
 				}
 			}
-			if os.Symlink(filepath.Join(where, "does-not-exist"), filepath.Join(where, "spill-zzverif")) == nil {
+			if os.Symlink("spill-zzverif", filepath.Join(where, "spill-zzverif")) == nil {
 				faulted = true
 			}
 		}
@@ -361,6 +361,9 @@ func verifC09Run(c verifC09Case) (spills int64, err error) {
 			return spills, fmt.Errorf("spill directories remain after reading the combiner (a spill file could not be opened; read error: %v): %v", e, d)
 		}
 		verifC09Faulted++
+		if e != nil {
+			verifC09FaultErrs++
+		}
 		return spills, nil
 	}
 	if c.WriteTo {
@@ -422,7 +425,7 @@ const verifC09RandName = "TestVerifC09CombinerRandom"
 
 func TestVerifC09CombinerRandom(t *testing.T) {
 	rec := vt.New("C09", "combiner-random",
-		"rapid: newCombiner over schemas with 1..3 key columns (13 keyable types) and a value column with a commutative, associative combiner; 1..12 batches of 0..300 rows with key cardinality 1..24 per column (skewed by small cardinalities); spill threshold 1..200 keys, table/scratch size (vector size) {1,2,4,8,128}, spill batch {1,2,128}; read through Reader() or WriteTo()+decode with destination-size schedules, or discarded, or read after a spill file that cannot be opened (dangling symbolic link) was planted in the spill directory; oracle: one row per distinct key, ascending key order, value = fold, no spiller directory left in every one of these endings; non-trivial = at least one spill to disk; distinct by case hash")
+		"rapid: newCombiner over schemas with 1..3 key columns (13 keyable types) and a value column with a commutative, associative combiner; 1..12 batches of 0..300 rows with key cardinality 1..24 per column (skewed by small cardinalities); spill threshold 1..200 keys, table/scratch size (vector size) {1,2,4,8,128}, spill batch {1,2,128}; read through Reader() or WriteTo()+decode with destination-size schedules, or discarded, or read after a spill file that cannot be opened (a symbolic link to itself) was planted in the spill directory; oracle: one row per distinct key, ascending key order, value = fold, no spiller directory left in every one of these endings; non-trivial = at least one spill to disk; distinct by case hash")
 	docs, only := vt.Replays(verifC09RandName)
 	for _, d := range docs {
 		var c verifC09Case
@@ -464,11 +467,14 @@ func TestVerifC09CombinerRandom(t *testing.T) {
 			c.Discard = true
 		}
 		b, _ := json.Marshal(c)
-		faulted0 := verifC09Faulted
+		faulted0, ferrs0 := verifC09Faulted, verifC09FaultErrs
 		spills, err := verifC09Run(c)
 		classes := []string{}
 		if verifC09Faulted > faulted0 {
 			classes = append(classes, "spill-file-open-fault")
+		}
+		if verifC09FaultErrs > ferrs0 {
+			classes = append(classes, "spill-file-open-fault:read-failed")
 		}
 		if c.Discard {
 			classes = append(classes, "discarded")
